@@ -599,6 +599,13 @@ func corpusTA(cfg *config) []string {
 		"dec mut " + hexStr("Time\n\n1.000\n"),
 		"dec mut " + hexStr("# Lap 0: 00:00:01.000\n# Lap 0: 00:00:01.000\n# Lap 0: 00:00:01.000\n"),
 	}
+	// values that only half parse: every one of them is an unparsable value
+	for _, v := range []string{"1653983971.abc", "1653983971.", "1653983971", ".5", "1653983971.010x", "1653983971,010", "abc.010", "1653983971.-10", "+1653983971.010"} {
+		ops = append(ops, "dec mut "+hexStr("# Vehicle: Demo\n\"Time\",\"UTC Time\",\"Lap\"\n0.000,1653983971.000,0\n0.010,"+v+",0\n"))
+	}
+	for _, v := range []string{"0.010x", "0.", "1e1", "0,5"} {
+		ops = append(ops, "dec mut "+hexStr("Time,Lap\n0.000,0\n"+v+",0\n"))
+	}
 	p := filepath.Join(cfg.repo, "test", "Log-20220531-085930 Goodwood Motorcircuit - 2.57.527.csv")
 	if data, err := os.ReadFile(p); err == nil {
 		if cfg.tier != "thorough" {
